@@ -46,6 +46,17 @@ def quiet(fn, *a, **kw):
 
 def alter(rng, value, kind, tol):
     """the altered stored result, or None if this kind does not apply to the value"""
+    new = _alter(rng, value, kind, tol)
+    if kind == 'number-beyond' and new is not None:
+        # the alteration must survive float rounding (|value| ~ 1e18 absorbs +-1.5) and the xlsx text form
+        new = float(repr(float(new)))
+        bound = tol if tol is not None else 1e-4 * abs(value)
+        if not abs(new - value) > 2 * bound or abs(value) > 1e12:
+            return None
+    return new
+
+
+def _alter(rng, value, kind, tol):
     num = isinstance(value, (int, float)) and not isinstance(value, bool)
     if kind == 'number-beyond' and num:
         if tol is None:
